@@ -14,6 +14,7 @@ U6M = ("u6_mapper_step", {})
 U6W = ("u6_writer_step", {})
 U8 = ("u8_writer_tail", {})
 U9 = ("u9_selftest", {})
+U11 = ("u11_text_safety", {})
 U3 = ("u3_interpretation", {})
 U4 = ("u4_cache_parse", {})
 U7 = ("u7_metadata", {})
@@ -205,11 +206,12 @@ PROPS = {
     },
     "C13": {
         "title": "No mapping bytes and no query can make the library panic or overflow",
-        "units": [U2S, U5, U7, U10M, U3, U8, U9, U6M, U6W, U1S, U4, U10C],
+        "units": [U2S, U5, U7, U10M, U3, U8, U9, U6M, U6W, U1S, U4, U10C, U11],
         "kani": ["k3_java_base_types"],
         "technique": "Verus implicit obligations on the mapper reader with NO precondition on entry values",
         "level_text": "The mapper's reader functions are verified with arbitrary usize entry values and any frame: no overflow, no out-of-bounds, termination.",
-        "assumed": ["builders, java.rs tokenizer, stacktrace.rs classifiers and Display impls are not covered"],
+        "assumed": ["str API contracts of contracts/text_model.rs (std documentation restated over an uninterpreted byte view) for parse_frame and parse_obfuscated_bytecode_signature",
+                    "not covered: parse_stacktrace (`current.cause.as_deref_mut().unwrap()` walk), parse_throwable and the other total str-pattern classifiers, byte_code_type_to_java_type (Chars::next_back + format!), Display impls, the record-dispatch loops of the two builders"],
         "design_ref": "DESIGN.md 5/C13",
     },
 }
